@@ -2,7 +2,7 @@
 
 CONFIG = {
     "cmd": "c03",
-    "coq_files": ["theories/StaticScope.v", "theories/Eval.v"],
+    "coq_files": ["theories/StaticScope.v", "theories/Eval.v", "theories/WaitforScope.v"],
     "trusted": [
         "coq/theories/StaticScope.v: the specified static resolution (chk_program true) and the mirror of the visitor where it differs (chk_program false)",
         "run-time scope chain of coq/theories/Eval.v (frames, fork points of every iterator, per-frame uniqueness)",
@@ -18,6 +18,12 @@ KINDS = {0: "well-scoped program rejected at compile time",
 
 def describe(meta, fname, t):
     kind, i, j = t
+    if fname == "casesw.v":
+        ws = meta["index"].get("waitfor", [])
+        c = ws[i] if i < len(ws) else {"query": "?"}
+        what = {20: "well-scoped WAITFOR EVENT rejected at compile time", 21: "ill-scoped WAITFOR EVENT accepted by the compiler (CURRENT exists in the FILTER only; every other operand is resolved in the enclosing scope)"}.get(kind, "mismatch")
+        return {"key": "w%d|%s" % (kind, c["query"]), "query": c["query"], "mkind": kind, "theorem": "C03.waitfor_scoping_exact",
+                "what": "%s: query=%r compile=%s %s" % (what, c["query"], "accepted" if c.get("accepted") else "rejected", (c.get("err") or "")[:120])}
     cases = [c for c in meta["index"]["cases"] if c["file"] == fname]
     c = cases[i] if i < len(cases) else {"query": "?", "params": {}}
     if kind >= 100:
